@@ -314,7 +314,7 @@ def cq_op(label, t_start):
         dl = cq_N(t_start + label.get("deadline_ms", 0))
     if op_is_bad(label):
         return "OpBadCall"
-    if op == "subscribe":
+    if op in ("subscribe", "subscribechan"):
         return "(OpSubscribe %s)" % n
     if op == "unsubscribe":
         return "(OpUnsubscribe %s)" % n
@@ -396,7 +396,7 @@ def cq_out(o, sched_ops, op_req):
         r = o["r"]
         if r == "ok":
             kind = lab.get("op")
-            if kind == "subscribe":
+            if kind in ("subscribe", "subscribechan"):
                 rr = "(RetSub %s)" % cq_N(o.get("sub", 0))
             elif kind == "register":
                 rr = "(RetReg %s)" % cq_N(o.get("reg", 0))
@@ -660,7 +660,7 @@ class Builder:
         info = self.pending[o]
         k = info["kind"]
         ref = {"op": o}
-        if k == "subscribe":
+        if k in ("subscribe", "subscribechan"):
             if "sub" not in info:
                 self.nextsub += 1
                 info["sub"] = self.nextsub
@@ -686,7 +686,7 @@ class Builder:
         info = self.pending.pop(o, None)
         if not info or not ok:
             return
-        if info["kind"] == "subscribe" and "sub" in info:
+        if info["kind"] in ("subscribe", "subscribechan") and "sub" in info:
             self.subs[info["name"]] = (info["sub"], o)
         if info["kind"] == "register" and "reg" in info:
             self.regs[info["name"]] = (info["reg"], o)
@@ -726,7 +726,7 @@ def gen_c16(rng, sid):
            "cancel_mode": rng.choice(["", "kill", "killnowait", "skip"])}
     b = Builder(rng, sid, cfg)
     G = rng.randint(2, 8)
-    kinds = ["subscribe", "register", "call", "call", "publish", "subscribe", "register", "callprog"]
+    kinds = ["subscribe", "register", "call", "call", "publish", "subscribechan", "register", "callprog", "subscribechan"]
     # phase 1: start G operations, all at once or in two waves
     labels = []
     for g in range(G):
@@ -781,7 +781,17 @@ def gen_c16(rng, sid):
                 b.burst([b.reply_err(o)])
                 b.done(o, False)
             elif fate < 0.6:
-                b.burst([b.reply_ok(o)])                      # a RESULT: discarded
+                if rng.random() < 0.5 and info["deadline"] - b.now > 1500:
+                    # results that keep coming after the CANCEL: discarded, and the
+                    # response timer keeps running from the CANCEL
+                    for _ in range(rng.randint(1, 3)):
+                        step = rng.choice([500, 1000])
+                        if info["deadline"] - b.now <= step:
+                            break
+                        b.burst([b.msg("result", req={"op": o}, tag=b.tag(), details={"progress": V("bool", b=True)})
+                                 if rng.random() < 0.6 else b.reply_ok(o)], adv=step)
+                else:
+                    b.burst([b.reply_ok(o)])                  # a RESULT: discarded
             elif fate < 0.8 and info["deadline"] > b.now:
                 b.burst([b.reply_err(o)], adv=info["deadline"] - b.now, prearm=rng.random() < 0.5)
                 b.done(o, False)                              # ERROR coincides with the timer
@@ -1066,7 +1076,7 @@ def monitor_c16(sched, res):
     def v(sig, what):
         bad.append(("C16 " + sig, what))
 
-    FINAL = {"subscribe": "subscribed", "unsubscribe": "unsubscribed", "register": "registered",
+    FINAL = {"subscribe": "subscribed", "subscribechan": "subscribed", "unsubscribe": "unsubscribed", "register": "registered",
              "unregister": "unregistered", "publish": "published", "call": "result", "callprog": "result"}
     cancel_t = {}
     for bi, b in enumerate(sched["bursts"]):
@@ -1081,11 +1091,27 @@ def monitor_c16(sched, res):
         if ob["e"] == "sent" and ob["typ"] == "CANCEL":
             cancels_sent.setdefault(ob.get("req", 0), []).append((pos, ob))
 
+    t_last = T.times[-1] if T.times else 0
     for o, lab in T.ops.items():
         kind = lab["op"]
         rets = T.rets.get(o, [])
         if len(rets) > 1:
             v("api returned twice", "op %d (%s) returned %d times" % (o, kind, len(rets)))
+        # "... or an error when the reply does not come within the response timeout":
+        # once virtual time has passed the deadline the call must have returned
+        req0 = T.op_req.get(o, 0)
+        if req0:
+            if kind in ("call", "callprog"):
+                ct0 = cancel_t.get(o)
+                mine0 = [c for c in cancels_sent.get(req0, []) if ct0 is not None and c[1]["t"] >= ct0 and c[1].get("mode") == T.mode]
+                dl0 = mine0[0][1]["t"] + T.rt if mine0 else None
+            else:
+                dl0 = lab["t"] + T.rt
+            if dl0 is not None and dl0 <= t_last and (not rets or rets[0][1]["t"] > dl0):
+                v("call outlived its response timeout",
+                  "op %d (%s): %s at %d, response timeout %d, still not returned at %d%s" % (
+                      o, kind, "CANCEL sent" if kind in ("call", "callprog") else "started", dl0 - T.rt, T.rt,
+                      rets[0][1]["t"] if rets else t_last, "" if rets else " (end of the schedule)"))
         if not rets:
             continue   # the harness reports an API call that never returns as a hang
         pos, r = rets[0]
@@ -1102,7 +1128,7 @@ def monitor_c16(sched, res):
                 if not cands:
                     v("returned without its own reply", "op %d (%s, request %d) returned success but no %s with its request id had been sent"
                       % (o, kind, req, want.upper()))
-                elif kind == "subscribe" and r.get("sub") not in [x[3].get("sub") for x in cands]:
+                elif kind in ("subscribe", "subscribechan") and r.get("sub") not in [x[3].get("sub") for x in cands]:
                     v("returned another request's reply", "op %d subscribe: subscription id %s is not the one of its SUBSCRIBED" % (o, r.get("sub")))
                 elif kind == "register" and r.get("reg") not in [x[3].get("reg") for x in cands]:
                     v("returned another request's reply", "op %d register: registration id %s is not the one of its REGISTERED" % (o, r.get("reg")))
